@@ -234,6 +234,7 @@ var c06PanicTable = map[string]string{
 	"router.(*RouteConfig).Route":         "config-time",
 	"router.(*Router).match":              "default-route",
 	"service.(*ClientConfig).tcpNetwork":  "config-time",
+	"service.(*ClientConfig).Initialize":  "config-time: C18-R4 walks Initialize with its helpers expanded for every value of the network option and admits no reachable panic, wherever the panic is written",
 	"ss2022.intToUint16":                  "bounds-contract",
 	"ss2022.(*ShadowStreamConn).read":     "bounds-requires",
 	"socks5.AppendAddrFromConnAddr":       "domain-length",
@@ -253,9 +254,10 @@ var c06PanicTable = map[string]string{
 var c06AddrReviewed = map[string]string{
 	"ss2022.(*UDPClient).NewSession:ResolveIPPort on recv.field:conn.Addr":                "server address of a configured client: service.(*ClientConfig).checkAddresses refuses a UDP-enabled client without a valid address (C18-R4)",
 	"direct.(*ShadowsocksNoneUDPClient).NewSession:ResolveIPPort on recv.field:conn.Addr": "server address of a configured client: validated by checkAddresses (C18-R4)",
-	"direct.(*Socks5UDPClient).newSession:ResolveIPPort on param:conn.Addr":               "address parsed from the SOCKS5 UDP ASSOCIATE reply on its success edge (socks5.ClientUDPAssociate returns a non-zero Addr or an error)",
-	"direct.(*DirectPacketClientPacker).updateDomainIPCache:Domain on param:conn.Addr":    "called from PackInPlace only on the !IsIP() edge with a target address that came out of a server unpacker's successful parse (never the zero Addr)",
-	"direct.(*DirectPacketClientPacker).updateDomainIPCache:ResolveIP on param:conn.Addr": "same as above: non-zero target address",
+	"direct.(*Socks5UDPClient).NewSession:ResolveIPPort on local:conn.Addr":               "address parsed from the SOCKS5 UDP ASSOCIATE reply on its success edge (socks5.ClientUDPAssociate returns a non-zero Addr or an error); the call itself sits in the shared newSession helper",
+	"direct.(*Socks5AuthUDPClient).NewSession:ResolveIPPort on local:conn.Addr":           "same, through socks5.ClientUDPAssociateUsernamePassword",
+	"direct.(*DirectPacketClientPacker).PackInPlace:Domain on param:conn.Addr":            "reached only on the !IsIP() edge (directly or in the cache helper) with a target address that came out of a server unpacker's successful parse (never the zero Addr)",
+	"direct.(*DirectPacketClientPacker).PackInPlace:ResolveIP on param:conn.Addr":         "same as above: non-zero target address",
 	"socks5.AppendAddrFromConnAddr:Domain on param:conn.Addr":                             "after the IsIP() early return; callers pass request/target addresses that were parsed successfully or configured (non-zero)",
 	"socks5.WriteAddrFromConnAddr:Domain on param:conn.Addr":                              "after the IsIP() early return; non-zero target address",
 	"socks5.LengthOfAddrFromConnAddr:Domain on param:conn.Addr":                           "after the IsIP() early return; non-zero target address",
@@ -271,7 +273,7 @@ var c06AddrReviewed = map[string]string{
 // c06AddrReviewedCount: number of reviewed sites sharing one role key (default 1); a further
 // unguarded call of the same shape in the same function is a new, unreviewed site.
 var c06AddrReviewedCount = map[string]int{
-	"direct.(*DirectPacketClientPacker).updateDomainIPCache:Domain on param:conn.Addr": 2,
+	"direct.(*DirectPacketClientPacker).PackInPlace:Domain on param:conn.Addr": 2,
 }
 
 func c06R1(p *Prog, r *Report) {
@@ -334,6 +336,35 @@ func c06R1(p *Prog, r *Report) {
 						nLocal++
 						r.OK(rule, key, cs.Pos(), "dominated by the matching predicate")
 						continue
+					}
+					// a site on a parameter of an unexported helper is decided where the helper is
+					// called: guarded there, or reviewed under the caller's name, so that moving
+					// the code between the helper and its caller changes nothing
+					if sel, isSel := ast.Unparen(cs.Call.Fun).(*ast.SelectorExpr); isSel {
+						if lifted := c06LiftToCallers(p, pkg, ctx, sel.X); len(lifted) > 0 {
+							allOK := true
+							why := ""
+							for _, ls := range lifted {
+								if addrGuardedExpr(ls.fc, ls.arg, cs.Fn.Name(), ls.v) {
+									why += "guarded at the call in " + ls.fc.Name + "; "
+									continue
+								}
+								lkey := ls.fc.Name + ":" + cs.Fn.Name() + " on " + roleOf(ls.fc, ls.arg)
+								reason, ok := c06AddrReviewed[lkey]
+								reviewedSeen[lkey]++
+								if ok && reviewedSeen[lkey] > max(1, c06AddrReviewedCount[lkey]) {
+									ok = false
+								}
+								if !ok {
+									allOK = false
+									why = "the helper's call in " + ls.fc.Name + " (" + lkey + ") is neither guarded nor reviewed"
+									break
+								}
+								why += "reviewed (" + lkey + "): " + reason + "; "
+							}
+							r.Check(allOK, rule, key, cs.Pos(), why, exprStr(cs.Call)+" can panic: "+why)
+							continue
+						}
 					}
 					reason, ok := c06AddrReviewed[key]
 					reviewedSeen[key]++
@@ -1601,4 +1632,69 @@ func c06SetTogether(p *Prog, pkg *packages.Package, typeName, a, b string) bool 
 		}
 	})
 	return okAll && nA > 0
+}
+
+type c06Lifted struct {
+	fc  *FuncCtx
+	v   int
+	arg ast.Expr
+}
+
+// c06LiftToCallers: recv is (rooted at) a parameter of the unexported function ctx that ctx never
+// reassigns; the result lists every call of ctx in its package with the argument bound to that
+// parameter. Empty when ctx is exported, is used as a value, or recv is not such a parameter.
+func c06LiftToCallers(p *Prog, pkg *packages.Package, ctx *FuncCtx, recv ast.Expr) []c06Lifted {
+	if ctx.Obj == nil || ctx.Obj.Exported() || ctx.Lit != nil {
+		return nil
+	}
+	info := ctx.Info()
+	o := objOf(info, recv)
+	if o == nil {
+		return nil
+	}
+	sig, _ := ctx.Obj.Type().(*types.Signature)
+	if sig == nil || sig.Variadic() {
+		return nil
+	}
+	idx := -1
+	for i := 0; i < sig.Params().Len(); i++ {
+		if sig.Params().At(i) == o {
+			idx = i
+		}
+	}
+	if idx < 0 || len(ctx.Defs(o)) > 0 {
+		return nil
+	}
+	var out []c06Lifted
+	asValue := false
+	called := map[*ast.Ident]bool{}
+	p.AllFuncs(pkg, func(fc *FuncCtx) {
+		for _, c := range allCtxs(p, fc) {
+			for _, cs := range c.AllCalls() {
+				if cs.Fn != nil && cs.Fn.Origin() == ctx.Obj && idx < len(cs.Call.Args) {
+					out = append(out, c06Lifted{c, cs.V, cs.Call.Args[idx]})
+					switch f := ast.Unparen(cs.Call.Fun).(type) {
+					case *ast.Ident:
+						called[f] = true
+					case *ast.SelectorExpr:
+						called[f.Sel] = true
+					}
+				}
+			}
+		}
+	})
+	p.AllFuncs(pkg, func(fc *FuncCtx) {
+		ast.Inspect(fc.Body, func(n ast.Node) bool {
+			if id, ok := n.(*ast.Ident); ok && !called[id] {
+				if u, isFn := fc.Info().Uses[id].(*types.Func); isFn && u.Origin() == ctx.Obj {
+					asValue = true
+				}
+			}
+			return true
+		})
+	})
+	if asValue {
+		return nil
+	}
+	return out
 }
